@@ -86,11 +86,11 @@ def _filters():
     f["remove_particle_species"] = ("PL", "OJP", lambda r: [r.choice([r.choice(PDGS), r.sample(PDGS, r.randint(1, 3)),
                                                                       {"tuple": r.sample(PDGS, r.randint(1, 2))},
                                                                       {"array": r.sample(PDGS, r.randint(1, 2))}])])
-    f["particle_status"] = ("PL", "JP", lambda r: [r.choice([27, 11, 5, [27, 5], {"tuple": [11, 27]}, {"array": [11]}])])
+    f["particle_status"] = ("PL", "JP", lambda r: [r.choice([27, 11, 5, 0, 0, [27, 5], {"tuple": [11, 27]}, {"array": [11]}, [0]])])   # 0: a falsy scalar code
     f["pT_cut"] = ("PL", "OJP", lambda r: [r.choice([[0.75, None], [None, 1.5], [0.75, 2.5], [50.0, None]])])
     f["mT_cut"] = ("PL", "OJP", lambda r: [r.choice([[0.5, None], [None, 1.5], [100.0, None]])])
-    f["rapidity_cut"] = ("PL", "OJP", lambda r: [r.choice([0.5, [0.0, 2.0], [-1.0, 0.25]])])
-    f["pseudorapidity_cut"] = ("PL", "OJP", lambda r: [r.choice([0.5, [0.0, 2.0], [-1.0, 0.25]])])
+    f["rapidity_cut"] = ("PL", "OJP", lambda r: [r.choice([0.5, 0, 0.0, [0.0, 2.0], [-1.0, 0.25]])])          # 0 / 0.0: the window [0, 0]
+    f["pseudorapidity_cut"] = ("PL", "OJP", lambda r: [r.choice([0.5, 0, 0.0, [0.0, 2.0], [-1.0, 0.25]])])
     f["spacetime_rapidity_cut"] = ("PL", "OP", lambda r: [r.choice([0.01, [0.0, 1.0], [-1.0, 0.0]])])
     f["spacetime_cut"] = ("PL", "OP", lambda r: [r.choice(["x", "y", "z", "t"]), r.choice([[0.5, 2.5], [None, 1.5], [2.5, None]])])
     f["multiplicity_cut"] = ("EV", "OJP", lambda r: [r.choice([[2, None], [None, 2], [1, 3], [0, 1], [99, None], [3, None]])])
@@ -410,6 +410,29 @@ class Engine:
                         content = []
         return tabs
 
+    def ctor_expected(self, d):
+        """what the constructor must hold: the selected events, each passed through the filter chain on plain lists (the real
+        Filter.py functions on never-filtered reference objects); an event that had particles and lost all of them is dropped"""
+        evs = d["events"]
+        sel = d.get("sel")
+        idx = list(range(len(evs))) if sel is None else [sel] if isinstance(sel, int) else list(range(sel[0], sel[1] + 1))
+        out = []
+        for i in idx:
+            content = [p["pid"] for p in evs[i]]
+            was_empty = not content
+            for n, a in d["filters"]:
+                if FILTERS[n][0] == "PL":
+                    keep = self.keepset(n, a, content)
+                    content = [p for p in content if p in keep]
+                elif not self.keeps_event(n, a, content):
+                    content = []              # Filter returns [[]] for "no event left": the loaders go on with an empty event
+            if content is None:
+                continue
+            if not content and not was_empty and d["cls"] != "pobj":
+                continue          # the file loaders drop an event that lost all its particles; the particle-object loader keeps it
+            out.append(content)
+        return out
+
     # ---- main loop
     def run(self):
         warnings.simplefilter("ignore")
@@ -443,6 +466,15 @@ class Engine:
                 continue
             mirror = [list(e) for e in self.held(s)]
             self.viol += self.check_state(s, f"storer {di} after construction", mirror)
+            if d.get("filters") is not None:
+                try:
+                    want = self.ctor_expected(d)
+                except Exception:
+                    want = None               # an inadmissible argument / a raising accessor: nothing is claimed
+                got_c = [[self.ident.get(id(p), -1) for p in e] for e in self.held(s)]
+                if want is not None and got_c != want:
+                    self.viol.append(f"storer {di} after construction with filters={json.dumps(d['filters'])} (events={d.get('sel')}): holds "
+                                     f"{got_c} (particle ids per event), the same filters applied to the plain lists of the selected events give {want}")
             frozen = []          # (object, snapshot) that must never change again
             prev_add = None      # (object before the previous +, operand of the previous +)
             stop = False
